@@ -172,15 +172,22 @@ fn classify_common(e: &str) -> Option<String> {
     } else if p.starts_with("called `Option::unwrap()` on a `None` value") {
       "panic required-overflow".into()
     } else {
-      format!("panic {}", p.replace(' ', "_"))
+      format!("panic {}", sanitize(p))
     });
   }
   None
 }
 
+fn sanitize(e: &str) -> String {
+  e.split_whitespace().collect::<Vec<_>>().join("_").chars().take(160).collect()
+}
+
 fn classify_send(e: &str) -> String {
   if let Some(c) = classify_common(e) {
     c
+  } else if e.starts_with("clap:") && (e.contains("decimal") || e.contains("outgoing")) {
+    // the amount text does not parse as a `Decimal` (e.g. above u128): rejected by the argument parser
+    "err amount".into()
   } else if e.contains("has not been etched") {
     "err not-etched".into()
   } else if e.contains("insufficient `") {
@@ -190,7 +197,7 @@ fn classify_send(e: &str) -> String {
   } else if e.contains("greater than zero") {
     "err zero-amount".into()
   } else {
-    format!("err other:{}", e.replace(' ', "_"))
+    format!("err other:{}", sanitize(e))
   }
 }
 
@@ -212,7 +219,7 @@ fn classify_split(e: &str) -> String {
   } else if e.contains("has not been etched") {
     "err load".into()
   } else {
-    format!("err other:{}", e.replace(' ', "_"))
+    format!("err other:{}", sanitize(e))
   }
 }
 
